@@ -14,6 +14,7 @@ JOIN = ("        return _MERGE_COLUMN_SEPARATOR.join(\n            [\n          
         "                .replace(\"\\\\\", \"\\\\\\\\\").replace(\n                    _MERGE_COLUMN_SEPARATOR, f\"\\\\{_MERGE_COLUMN_SEPARATOR}\"\n                )\n"
         "                for name in names\n            ]\n        )\n")
 OUTER = "    return np.array([_join_names(row) for row in feature_columns.astype(str)])\n"
+GUARD = ("    if not isinstance(feature_columns, np.ndarray):\n        raise ValueError(\n            f\"Received argument of type {type(feature_columns).__name__} instead of expected numpy.ndarray\"\n        )\n")
 
 CASES = [
     # ------------------------------------------------------------------ refactors
@@ -44,6 +45,17 @@ CASES = [
        "    def _escape(name):\n        return name.replace(\"\\\\\", \"\\\\\\\\\").replace(_MERGE_COLUMN_SEPARATOR, f\"\\\\{_MERGE_COLUMN_SEPARATOR}\")\n\n"
        "    def _join_names(names: Sequence[str]) -> str:\n        return _MERGE_COLUMN_SEPARATOR.join([_escape(name) for name in names])\n"),
       expect="refused", why="the replacement chain is only read off the comprehension itself; a helper function is not followed"),
+    # -- whole-body census (L2): harmless edits of the statements around _join_names
+    R("r-guard-after-def", "the isinstance guard moved after the inner function definition",
+      (GUARD + "\n    def _join_names(names: Sequence[str]) -> str:\n" + JOIN,
+       "    def _join_names(names: Sequence[str]) -> str:\n" + JOIN + "\n" + GUARD)),
+    R("r-guard-tuple-typeerror", "the guard tests against a tuple of types and raises TypeError with another message",
+      (GUARD, "    if not isinstance(feature_columns, (np.ndarray,)):\n        raise TypeError(\"numpy.ndarray expected\")\n")),
+    R("r-guard-dropped", "the isinstance guard dropped (callers always pass the result of check_array)",
+      (GUARD, "")),
+    R("r-second-guard", "a second isinstance guard (np.generic excluded) with its own message; comment and docstring in _join_names",
+      (GUARD, GUARD + "    if not isinstance(feature_columns, np.ndarray):  # paranoia\n        raise ValueError(\"ndarray expected\")\n"),
+      ("    def _join_names(names: Sequence[str]) -> str:\n", "    def _join_names(names: Sequence[str]) -> str:\n        \"\"\"Escape, then join.\"\"\"\n")),
     # ------------------------------------------------------------------ semantic edits
     S("s-order", "separator escaped before the backslash",
       (JOIN, "        return _MERGE_COLUMN_SEPARATOR.join(\n            [\n                name.replace(_MERGE_COLUMN_SEPARATOR, f\"\\\\{_MERGE_COLUMN_SEPARATOR}\").replace(\"\\\\\", \"\\\\\\\\\")\n"
@@ -57,4 +69,29 @@ CASES = [
     S("s-filter", "empty names dropped", ("                for name in names\n            ]\n", "                for name in names if name\n            ]\n")),
     S("s-temp-other-table", "temporary bound to another table",
       (OUTER, "    as_text = feature_columns.T.astype(str)\n    return np.array([_join_names(row) for row in as_text])\n")),
+    # -- whole-body census (L2): statements the old top-level-only inspection did not see
+    S("s-early-return-unescaped", "seeded C13a: when no cell contains the separator the names are joined WITHOUT escaping (early return in a branch)",
+      (OUTER, "    str_columns = feature_columns.astype(str)\n    if not (np.char.find(str_columns, _MERGE_COLUMN_SEPARATOR) >= 0).any():\n"
+              "        return np.array([_MERGE_COLUMN_SEPARATOR.join(row) for row in str_columns])\n\n"
+              "    return np.array([_join_names(row) for row in str_columns])\n"), expect="refused"),
+    S("s-early-return-in-guard", "the type guard returns its argument instead of raising",
+      ("        raise ValueError(\n            f\"Received argument of type {type(feature_columns).__name__} instead of expected numpy.ndarray\"\n        )\n",
+       "        return feature_columns\n"), expect="refused"),
+    S("s-early-return-one-column", "a one-column table is returned unescaped before the join",
+      (OUTER, "    if feature_columns.shape[1] == 1:\n        return feature_columns[:, 0].astype(str)\n" + OUTER), expect="refused"),
+    S("s-param-rebound", "the parameter is cut to its first column before the join",
+      (OUTER, "    feature_columns = feature_columns[:, :1]\n" + OUTER), expect="refused"),
+    S("s-try-fallback", "the join wrapped in try/except with an unescaped fallback",
+      (OUTER, "    try:\n    " + OUTER + "    except Exception:\n        return np.array([\",\".join(map(str, row)) for row in feature_columns])\n"),
+      expect="refused"),
+    S("s-loop-dedup", "a loop that post-processes the merged names (strips the escapes again) before a final return of another list",
+      (OUTER, "    merged = [_join_names(row) for row in feature_columns.astype(str)]\n    for i in range(len(merged)):\n"
+              "        merged[i] = merged[i].replace(\"\\\\\", \"\")\n    return np.array(merged)\n"), expect="refused"),
+    S("s-separator-rebound", "the separator constant is re-assigned further down in the module",
+      ("def _merge_columns(feature_columns: np.ndarray) -> np.ndarray:", "_MERGE_COLUMN_SEPARATOR = \";\"\n\n\ndef _merge_columns(feature_columns: np.ndarray) -> np.ndarray:"),
+      expect="refused"),
+    S("s-join-names-rebound", "_join_names is replaced by a plain join after its definition",
+      (OUTER, "    _join_names = _MERGE_COLUMN_SEPARATOR.join\n" + OUTER), expect="refused"),
+    S("s-guard-side-effect", "a guard whose test is not an isinstance test of the parameter (rejects wide tables)",
+      (OUTER, "    if feature_columns.shape[1] > 3:\n        raise ValueError(\"too many columns\")\n" + OUTER), expect="refused"),
 ]
